@@ -29,6 +29,7 @@ type Prog struct {
 	SSA     *ssa.Program
 	Funcs   []*ssa.Function // every function of the module (methods, closures), sorted by name
 	Inits   []*ssa.Function // synthetic package initialisers of the module packages
+	Renamed []string        // roles that were bound to a differently named function (see roles.go)
 	byName  map[string]*ssa.Function
 	CG      *callgraph.Graph
 	astDecl map[*ssa.Function]*ast.FuncDecl
@@ -117,6 +118,7 @@ func loadProg(repo string) *Prog {
 		}
 	}
 	p.CG = vta.CallGraph(all, cha.CallGraph(prog))
+	p.resolveRoles()
 	return p
 }
 
@@ -134,6 +136,9 @@ func funcPkg(fn *ssa.Function) *types.Package {
 
 // shortName renders a function as "vuego.(*Vue).evaluate", "helpers.IsTruthy", "vuego.(*Vue).evalFor$1".
 func shortName(fn *ssa.Function) string {
+	if c, ok := canonicalName[fn]; ok {
+		return c
+	}
 	s := fn.String()
 	s = strings.ReplaceAll(s, modPath+"/internal/", "")
 	s = strings.ReplaceAll(s, modPath+"/", "")
